@@ -177,6 +177,9 @@ func c12Data(r *core.Rng, s miniSchema, kind string) map[string]any {
 		return r.Range(1, 9)
 	}
 	wrong := func(t string) any {
+		if r.Chance(1, 4) {
+			return nil // YAML null is no string, integer or boolean
+		}
 		if t == "string" {
 			return r.Range(1, 9)
 		}
@@ -245,6 +248,9 @@ func c12Gen(c *core.Ctx, r *core.Rng, builtin map[string]miniSchema, policy stri
 				p.Aux["templates/"+name] = probeTemplate
 			default:
 				cp.TemplURL = kind + "://origin.test/t/" + name
+				if r.Chance(1, 4) {
+					cp.TemplURL += "?ref=main&raw=1" // the default schema location is still "template location plus .schema.json"
+				}
 				plan.HTTP[cp.TemplURL] = []simrt.Response{{Kind: "ok", Body: probeTemplate}}
 			}
 			cp.SchemaIdx = r.Intn(len(c12Custom))
